@@ -3,6 +3,9 @@ import ComposeVerif.Lemmas.Path
 import ComposeVerif.Gen.Tables
 import ComposeVerif.Gen.Schema
 import ComposeVerif.Model.SchemaPaths
+import ComposeVerif.Model.InterpTyped
+import ComposeVerif.Gen.Types
+import ComposeVerif.Gen.C08Facts
 /-!
 # C08 — interpolation touches only string values and is type-transparent
 
@@ -76,19 +79,15 @@ theorem interp_seq_get (c : Cfg) (p : TPath) (xs xs' : List Val) (h : interpList
 
 /-! ## 2. escaping: `$` ↦ `$$` with interpolation on gives back the original -/
 
-/-- `template.Substitute` undoes the escaping, for every text and environment -/
-theorem subst_escape (env : CV.Template.Env) (s : Str) : CV.Template.subst env (escapeDollars s) = .ok s :=
-  CV.TemplateC08.subst_escape env s
-
-/-- a text without `$` is not changed by substitution -/
+/-- a text without `$` is not changed by substitution (C07's `subst_lit`, restated with `∉`) -/
 theorem subst_no_dollar (env : CV.Template.Env) (s : Str) (h : '$' ∉ s) : CV.Template.subst env s = .ok s :=
-  CV.TemplateC08.subst_no_dollar env s h
+  CV.Template.subst_lit env s (fun c hc he => h (he ▸ hc))
 
 /-- typed form, per leaf: the escaped text with interpolation on denotes what the original denotes with
     interpolation off (`castOnly` = the value itself, or its cast at a cast path) -/
 theorem leaf_escape (c : Cfg) (p : TPath) (s : String) : leaf c p (escapeStr s) = castOnly c p s := by
-  have h := subst_escape c.env s.toList
-  have : (escapeStr s).toList = escapeDollars s.toList := by simp [escapeStr, String.toList_ofList]
+  have h := CV.Template.subst_escape c.env s.toList
+  have : (escapeStr s).toList = CV.Template.escapeDollars s.toList := by simp [escapeStr, String.toList_ofList]
   rw [leaf_of_subst (s' := s.toList) (by rw [this]; exact h), String.ofList_toList]
 
 /-- whole trees: writing every `$` of every value as `$$` and interpolating gives back the original tree,
@@ -112,19 +111,49 @@ theorem interp_dollar_free (c : Cfg) (p : TPath) (v : Val) (h : NoCast c.table p
 
 /-! ## 3. type transparency in the model: a variable is the literal -/
 
-/-- `${NAME}` with NAME set to `t` denotes, at every path, what the text `t` denotes with nothing to substitute -/
-theorem var_is_literal (c : Cfg) (p : TPath) (n : Str) (t : String) (hn : ValidName n) (he : c.env n = some t.toList) :
+/-- **every form of the grammar at once**: a well-formed template (any nesting of `$V`, `${V}`, `${V:-…}`, `${V:+…}`,
+    `${V:?…}`, `$$`, literal text) that the grammar evaluates to the text `t` denotes, at every path, exactly what
+    the literal `t` denotes with nothing to substitute: same typed value, same cast error (uses C07's `subst_render`) -/
+theorem template_is_literal (c : Cfg) (p : TPath) (tm : List CV.Template.Seg) (t : Str)
+    (hwf : CV.Template.WF tm = true) (he : CV.Template.evalL c.env tm = .ok t) :
+    leaf c p (String.ofList (CV.Template.renderL tm)) = castOnly c p (String.ofList t) := by
+  have h := CV.Template.subst_render c.env tm hwf
+  simp only [CV.Template.evalOut, he] at h
+  exact leaf_of_subst (by rw [String.toList_ofList]; exact h)
+
+/-- `${NAME}` with NAME set to `t` -/
+theorem var_is_literal (c : Cfg) (p : TPath) (n : Str) (t : String) (hn : CV.Template.validName n = true)
+    (he : c.env n = some t.toList) :
     leaf c p (String.ofList ('$' :: '{' :: (n ++ ['}']))) = castOnly c p t := by
-  have h := CV.TemplateC08.subst_braced_var c.env n hn
-  rw [he] at h
-  rw [leaf_of_subst (s' := t.toList) (by rw [String.toList_ofList]; exact h), String.ofList_toList]
+  have := template_is_literal c p [.var n true] t.toList (by simp [CV.Template.WF, CV.Template.wfL, CV.Template.Seg.wf, hn])
+    (by simp [CV.Template.evalL, CV.Template.Seg.eval, he])
+  simpa [CV.Template.renderL, CV.Template.Seg.render, String.ofList_toList] using this
+
+/-- `pre${NAME}post`: the value is spliced between literal text (`pre`, `post` without `$`) -/
+theorem split_is_literal (c : Cfg) (p : TPath) (n pre post v : Str) (hn : CV.Template.validName n = true)
+    (hpre : CV.Template.litOkTop pre = true) (hpost : CV.Template.litOkTop post = true) (he : c.env n = some v) :
+    leaf c p (String.ofList (pre ++ '$' :: '{' :: (n ++ ['}']) ++ post)) = castOnly c p (String.ofList (pre ++ v ++ post)) := by
+  have := template_is_literal c p [.lit pre, .var n true, .lit post] (pre ++ v ++ post)
+    (by simp [CV.Template.WF, CV.Template.wfL, CV.Template.Seg.wf, hn, hpre, hpost])
+    (by simp [CV.Template.evalL, CV.Template.Seg.eval, he])
+  simpa [CV.Template.renderL, CV.Template.Seg.render] using this
+
+/-- `${UNSET:-literal}` (and `${EMPTY:-literal}`): the default is the value -/
+theorem default_is_literal (c : Cfg) (p : TPath) (n d : Str) (hn : CV.Template.validName n = true)
+    (hd : CV.Template.litOkArg d = true) (he : c.env n = none ∨ c.env n = some []) :
+    leaf c p (String.ofList ('$' :: '{' :: (n ++ [':', '-'] ++ d ++ ['}']))) = castOnly c p (String.ofList d) := by
+  have := template_is_literal c p [.op n .colonDash [.lit d]] d
+    (by simp [CV.Template.WF, CV.Template.wfL, CV.Template.Seg.wf, hn, hd])
+    (by rcases he with he | he <;> simp [CV.Template.evalL, CV.Template.Seg.eval, CV.Template.opSpec, he])
+  simpa [CV.Template.renderL, CV.Template.Seg.render, CV.Template.Op.str] using this
 
 /-- … and so does the literal `t` itself when it contains no `$`: same typed value, same error -/
-theorem var_transparent (c : Cfg) (p : TPath) (n : Str) (t : String) (hn : ValidName n) (he : c.env n = some t.toList)
-    (hd : '$' ∉ t.toList) : leaf c p (String.ofList ('$' :: '{' :: (n ++ ['}']))) = leaf c p t := by
+theorem var_transparent (c : Cfg) (p : TPath) (n : Str) (t : String) (hn : CV.Template.validName n = true)
+    (he : c.env n = some t.toList) (hd : '$' ∉ t.toList) :
+    leaf c p (String.ofList ('$' :: '{' :: (n ++ ['}']))) = leaf c p t := by
   rw [var_is_literal c p n t hn he, leaf_of_subst (subst_no_dollar c.env _ hd), String.ofList_toList]
 
-/-- the two integer casters are the same function (toInt = Atoi, toInt64 = ParseInt base 10 / 64 bit) -/
+/-- the two integer casters are the same function (both are `parseYAMLInt`, 64 bit) -/
 theorem toInt_eq_toInt64 (fp : FloatParser) (s : String) : Caster.toInt.apply fp s = Caster.toInt64.apply fp s := rfl
 
 /-- the YAML-1.1 boolean spellings, in any ASCII case, are accepted -/
@@ -134,13 +163,34 @@ theorem parseBool_yaml11 :
     (∀ w ∈ ["", "1", "0", "t", "f", "maybe", "truee", " true", "~", "null"], parseBool w = none) := by
   decide
 
-/-- FULL STRENGTH IS FALSE (`Neg/C08.lean: literal_eq_variable_int_false`, witness `0440`): a plain YAML literal
-    `0[0-7]+` is octal for yaml.v3 but decimal for the casters.  What holds: they agree when every digit before the
-    last is `0` (e.g. `00`, `07`, `0007`). -/
-theorem literal_eq_variable_int_partial (k : Nat) (d : Char) (hd : isOctDigit d = true) :
-    yamlLegacyOctal (String.ofList ('0' :: (List.replicate k '0' ++ [d]))) =
-      parseInt (String.ofList ('0' :: (List.replicate k '0' ++ [d]))) :=
-  yamlLegacyOctal_eq_parseInt_of_zeros k d hd
+/-- **full strength since the repair "casts read numbers like YAML does"** (before it: `Neg/C08.lean`, witness `0440`):
+    every text yaml.v3 resolves as a plain `!!int` literal (underscores, `0x`/`0o`/`0b`, leading-zero octal, signs)
+    is cast to the same integer when it arrives through a variable -/
+theorem literal_eq_variable_int (s : String) (i : Int) (h : yamlInt s = some i) : parseInt s = some i := by
+  unfold yamlInt at h
+  unfold parseInt
+  split at h
+  · split at h
+    · rw [h]
+    · cases h
+  · cases h
+
+/-- the casters accept strictly more than YAML's integers only in one way: a text that is not valid octal is decimal -/
+theorem parseInt_cases (s : String) (i : Int) (h : parseInt s = some i) :
+    yamlIntCore (stripUnderscores s.toList) = some i ∨
+    (yamlIntCore (stripUnderscores s.toList) = none ∧ parseIntDecimal (stripUnderscores s.toList) = some i) := by
+  unfold parseInt at h
+  split at h
+  · rename_i j hj; cases h; exact .inl hj
+  · rename_i hj; exact .inr ⟨hj, h⟩
+
+/-- the spellings of the recorded findings, now read as YAML reads them -/
+theorem parseInt_yaml_spellings :
+    parseInt "0440" = some 288 ∧ parseInt "0x10" = some 16 ∧ parseInt "0o17" = some 15 ∧ parseInt "0b11" = some 3 ∧
+    parseInt "1_000" = some 1000 ∧ parseInt "-0x1F" = some (-31) ∧ parseInt "08" = some 8 ∧ parseInt "+7" = some 7 ∧
+    parseInt "0" = some 0 ∧ parseInt "0x" = none ∧ parseInt "1e3" = none ∧ parseInt "" = none ∧ parseInt "_" = none ∧
+    parseInt "9223372036854775808" = none ∧ parseInt "-9223372036854775808" = some (-9223372036854775808) := by
+  decide
 
 /-! ## 4. errors name the attribute path -/
 
@@ -198,6 +248,96 @@ def schemaCompatible (c : Caster) (tys : List CV.Schema.Ty) : Bool :=
 theorem cast_rows_schema_compatible : ∀ row ∈ CV.Gen.castTable,
     schemaCompatible (Caster.ofName row.2) (CV.Schema.kindsAt CV.Gen.composeSchema row.1) = true := by decide
 
+/-! ## 6. every typed attribute is reachable by a variable: cast row or decode-time conversion -/
+
+/-- the typed leaves (bool / int / uint / float, Duration, UnitBytes, NanoCPUs, DeviceCount) of `types.Project`, from the
+    regenerated struct descriptors -/
+def projectLeaves : List TypedLeaf := typedLeaves CV.Gen.structs CV.Gen.namedTypes CV.Gen.customMethods "Project"
+
+/-- the scalar short form of a self-decoding struct is stored in a pseudo field (`UlimitsConfig.Single`): its row is the
+    row of the struct's own path -/
+def TypedLeaf.rowPath (l : TypedLeaf) : List String :=
+  if l.path.getLast? = some "single" then l.path.dropLast else l.path
+
+/-- struct fields that are not attributes of the Compose schema at all (the plain literal is rejected there:
+    "Additional property … is not allowed"; the oracle `c08typed` asserts exactly that on the real loader for these
+    paths).  `Schema.kindsAt` is not kernel-evaluable on undeclared keys (`String.startsWith`), hence the explicit list. -/
+def notInSchema : List (List String) := [
+  ["services", "*", "build", "ulimits", "*", "single"],
+  ["services", "*", "ulimits", "*", "single"],
+  ["services", "*", "deploy", "resources", "limits", "devices", "[]", "count"],
+  ["services", "*", "deploy", "resources", "limits", "generic_resources", "[]", "discrete_resource_spec", "value"],
+  ["services", "*", "deploy", "resources", "reservations", "pids"]]
+
+/-- **no typed path is missing from both mechanisms**: wherever the regenerated schema admits a string at a typed leaf,
+    the string is converted — by a row of the cast table, by the `cast` hook (its regenerated kind list), or by the
+    type's own `DecodeMapstructure`; fields of a self-decoding struct (ulimits) need a row -/
+theorem typed_paths_covered :
+    (projectLeaves.filter (fun l => !notInSchema.contains l.path)).all (fun l =>
+      !(CV.Schema.kindsAt CV.Gen.composeSchema l.path).contains .string ||
+      CV.Gen.castTable.any (fun r => r.1 == l.rowPath) || l.decodeConverts CV.Gen.c08_castHook) = true := by decide
+
+/-- the short forms: `ulimits.<name>: <scalar>` has a row wherever the struct is self-decoding -/
+theorem short_forms_covered :
+    (projectLeaves.filter (fun l => l.path.getLast? = some "single")).all (fun l =>
+      CV.Gen.castTable.any (fun r => r.1 == l.rowPath)) = true := by decide
+
+/-- the decode-time hook converts exactly Bool / Int / Int64 / Float32 / Float64 targets, each with a caster of that kind -/
+theorem cast_hook_known : ∀ r ∈ CV.Gen.c08_castHook,
+    (Caster.ofName r.2).kind = (match r.1 with
+      | "Bool" => some NumKind.bool | "Int" => some .int | "Int64" => some .int
+      | "Float32" => some .float | "Float64" => some .float | _ => none) := by decide
+
+/-- the two mechanisms never convert the same attribute to different kinds: where a cast row sits on a primitive leaf
+    the hook also handles, both casters produce the same kind of value (and the integer / boolean casters are the very
+    same functions, `toInt_eq_toInt64`) -/
+theorem cast_hook_agrees_with_table :
+    projectLeaves.all (fun l => match l.conv with
+      | .hook k => CV.Gen.castTable.all (fun r => r.1 != l.path ||
+          (match CV.Gen.c08_castHook.find? (fun h => h.1 == k) with
+           | some h => (Caster.ofName h.2).kind == (Caster.ofName r.2).kind
+           | none => true))
+      | _ => true) = true := by decide
+
+/-- the hook, as a function: a string at a target kind it knows is converted by the row-independent caster; any other
+    kind (e.g. `Uint32`) is left to mapstructure, which rejects a string for a numeric target -/
+theorem decodeCast_spec (fp : FloatParser) (s : String) :
+    decodeCast CV.Gen.c08_castHook fp "Bool" s = some ((parseBool s).map Val.bool) ∧
+    decodeCast CV.Gen.c08_castHook fp "Int" s = some ((parseInt s).map Val.int) ∧
+    decodeCast CV.Gen.c08_castHook fp "Int64" s = some ((parseInt s).map Val.int) ∧
+    decodeCast CV.Gen.c08_castHook fp "Uint16" s = none ∧ decodeCast CV.Gen.c08_castHook fp "Uint32" s = none ∧
+    decodeCast CV.Gen.c08_castHook fp "Uint64" s = none ∧ decodeCast CV.Gen.c08_castHook fp "String" s = none := by
+  refine ⟨rfl, rfl, rfl, rfl, rfl, rfl, rfl⟩
+
+/-- interpolation off ≡ interpolation on at a cast row whose leaf the hook also converts with the same caster: the
+    decode-time value of a string is `castOnly` of it -/
+theorem decode_time_is_castOnly (c : Cfg) (p : TPath) (name kind : String) (s : String) (v : Val)
+    (hrow : firstMatch c.table p = some name) (hhook : (kind, name) ∈ CV.Gen.c08_castHook)
+    (hd : decodeCast CV.Gen.c08_castHook c.fp kind s = some (some v)) : castOnly c p s = .ok v := by
+  have hk : decodeCast CV.Gen.c08_castHook c.fp kind s = some ((Caster.ofName name).apply c.fp s) := by
+    simp only [CV.Gen.c08_castHook, List.mem_cons, Prod.mk.injEq, List.mem_nil_iff, or_false] at hhook
+    rcases hhook with ⟨rfl, rfl⟩ | ⟨rfl, rfl⟩ | ⟨rfl, rfl⟩ | ⟨rfl, rfl⟩ | ⟨rfl, rfl⟩ <;> rfl
+  rw [hk] at hd
+  simp only [Option.some.injEq] at hd
+  unfold castOnly
+  rw [hrow]
+  simp only [hd]
+
+/-- the casters still go through the modelled parsers (`parseYAMLInt` / `parseYAMLFloat` of loader/interpolate.go) -/
+theorem casters_are_modelled :
+    CV.Gen.c08_casterCalls = [
+      ("toInt", ["int", "int64", "parseYAMLInt", "strconv.Atoi"]),
+      ("toInt64", ["parseYAMLInt", "strconv.ParseInt"]),
+      ("toFloat", ["parseYAMLFloat"]),
+      ("toFloat32", ["float32", "parseYAMLFloat"]),
+      ("toBoolean", ["fmt.Errorf", "logrus.Warnf", "strings.ToLower"])] := by decide
+
+/-- the per-file option sets (files reached through `extends` / `include`) inherit the interpolation switch and the
+    interpolation options -/
+theorem clone_keeps_interpolation :
+    "SkipInterpolation=o.SkipInterpolation" ∈ CV.Gen.c08_cloneCopies ∧ "Interpolate=o.Interpolate" ∈ CV.Gen.c08_cloneCopies := by
+  decide
+
 /-! ## non-vacuity -/
 
 private def cfg0 : Cfg :=
@@ -232,15 +372,24 @@ example : NoCast CV.Gen.castTable ["x"] (.map [("a", .str "${V}$"), ("b", .seq [
   rcases hm with ⟨rfl, _⟩ | ⟨rfl, _⟩ <;> decide
 
 /-- `var_is_literal` / `var_transparent`: `V` is a valid name, and `cfg0` sets it -/
-example : ValidName ['V'] ∧ cfg0.env ['V'] = some "yes".toList ∧ '$' ∉ "yes".toList := by
-  refine ⟨⟨⟨'V', [], rfl, by decide⟩, by decide⟩, by decide, by decide⟩
+example : CV.Template.validName ['V'] = true ∧ cfg0.env ['V'] = some "yes".toList ∧ '$' ∉ "yes".toList := by
+  refine ⟨by decide, by decide, by decide⟩
+
+/-- `template_is_literal`: a nested template that is well formed and evaluates -/
+example : CV.Template.WF [.lit ['a'], .op ['U'] .colonDash [.var ['V'] true, .lit ['!']]] = true ∧
+    CV.Template.evalL cfg0.env [.lit ['a'], .op ['U'] .colonDash [.var ['V'] true, .lit ['!']]] = .ok "ayes!".toList := by
+  refine ⟨by decide, by rfl⟩
+
+/-- `literal_eq_variable_int`: YAML reads `0440` as 288, and so does the caster -/
+example : yamlInt "0440" = some 288 ∧ yamlInt "-0b11" = some (-3) ∧ yamlInt "1_0" = some 10 := by decide
 
 /-- `cast_error_names_path`, `cast_failure_is_error`: an error run whose error carries the concrete path -/
 example : interp cfg0 ["services", "a", "scale"] (.str "${V}") = .err (.cast (pathString ["services", "a", "scale"])) :=
   cast_failure_is_error cfg0 _ _ "yes".toList "toInt" (by decide) (by decide) (by rfl)
 
-/-- `literal_eq_variable_int_partial`: `007` -/
-example : isOctDigit '7' = true ∧ yamlLegacyOctal "007" = some 7 ∧ parseInt "007" = some 7 := by decide
+/-- `typed_paths_covered` is about 93 leaves, 88 of them in the schema; `decode_time_is_castOnly` has instances -/
+example : projectLeaves.length = 93 ∧ (projectLeaves.filter (fun l => !notInSchema.contains l.path)).length = 88 := by decide
+example : ("Bool", "toBoolean") ∈ CV.Gen.c08_castHook ∧ firstMatch cfg0.table ["services", "a", "init"] = some "toBoolean" := by decide
 
 /-- `cast_lookup_perm`: the reversed table is a permutation -/
 example : (CV.Gen.castTable.reverse).Perm CV.Gen.castTable := List.reverse_perm _
